@@ -195,15 +195,15 @@ func ParseContractFile(path, pkgPath string) (*ContractFile, error) {
 			var n int
 			var kind string
 			f := strings.Fields(rest)
-			if len(f) < 2 || len(f) < 3 && f[1] != "localwrites" {
+			if len(f) < 2 || len(f) < 3 && f[1] != "localwrites" && f[1] != "freshwrites" {
 				return nil, fmt.Errorf("%s:%d: malformed loop clause", path, ln+1)
 			}
 			if _, err := fmt.Sscanf(f[0], "%d", &n); err != nil {
 				return nil, fmt.Errorf("%s:%d: loop ordinal: %v", path, ln+1, err)
 			}
 			kind = f[1]
-			if kind == "localwrites" {
-				cur.Clauses = append(cur.Clauses, &Clause{Kind: "localwrites", Loop: n, File: path, Line: ln + 1})
+			if kind == "localwrites" || kind == "freshwrites" {
+				cur.Clauses = append(cur.Clauses, &Clause{Kind: kind, Loop: n, File: path, Line: ln + 1})
 				last = nil
 				continue
 			}
